@@ -3501,7 +3501,7 @@ int bufr_load_dataset( BUFR_Dataset *dts,  const char *infile )
    fp = fopen ( infile, "rb" ) ;
    if (fp == NULL) 
       {
-      sprintf( errmsg, _("Error: can't open Datafile %s\n"), infile );
+      snprintf( errmsg, sizeof(errmsg), _("Error: can't open Datafile %s\n"), infile );
       bufr_print_debug( errmsg );
       return -1;
       }
